@@ -804,7 +804,7 @@ pub fn judge_xz(file: &[u8], delivered: &[u8]) -> Judge {
             };
         }
         for _ in 0..((flags & 3) + 1) {
-            let _id = match parse_vli(body, &mut p) {
+            let id = match parse_vli(body, &mut p) {
                 Some(v) => v,
                 None => return Judge::Unjudged("block header: bad filter VLI".into()),
             };
@@ -812,6 +812,11 @@ pub fn judge_xz(file: &[u8], delivered: &[u8]) -> Judge {
                 Some(v) => v as usize,
                 None => return Judge::Unjudged("block header: bad filter VLI".into()),
             };
+            if id == 0x21 && n != 1 {
+                // an LZMA2 filter has exactly one property byte: any further "property"
+                // would be taken from what has to be zero padding
+                return dis("block.filter_props_size", format!("LZMA2 filter declares {} property bytes", n));
+            }
             if p + n > body.len() {
                 return Judge::Unjudged("block header: filter props run off".into());
             }
